@@ -169,6 +169,33 @@ def classCount (o : Orc) (origin : Array Nat) (subs : Array Term) : Nat :=
       if a == b then (owner, par) else (owner, par.set! a b)) (labelOwner, parent)
   (List.range nsubs).foldl (fun acc x => if findP parent nsubs x == x then acc + 1 else acc) 0
 
+/-- index of a universe element that is `Cong`-equal to `t`, if `t` is *represented*: either it is in
+the universe, or all its children are represented and some element has the same node and children
+in the same classes (searched by brute force) -/
+partial def repIdx (o : Orc) (t : Term) : Option Nat :=
+  match o.lookup t with
+  | some i => some i
+  | none =>
+    match t with
+    | .mk n cs =>
+      let depths := childDepths n
+      let k := depths.foldl max 0
+      let names := Orc.freshNames o.pool t t k
+      if names.length < k then none else
+      let kidReps := (depths.zip cs).map fun (d, c) => repIdx o (openMany (names.take d) c)
+      if kidReps.any (·.isNone) then none else
+      let labels := kidReps.map fun r => o.find (r.getD 0)
+      (List.range o.univ.size).find? fun j =>
+        match o.univ[j]! with
+        | .mk m ds =>
+          decide (m = n) && ds.length == cs.length &&
+          (let names2 := Orc.freshNames o.pool (.mk m ds) t k
+           names2.length == k &&
+           ((depths.zip ds).zip ((depths.zip cs).zip labels)).all fun ((d, e), ((_, c), _)) =>
+             match o.lookup (openMany (names2.take d) e), repIdx o (openMany (names2.take d) c) with
+             | some a, some b => o.find a == o.find b
+             | _, _ => false)
+
 structure EgState where
   orc : Orc
   origin : Array Nat
@@ -194,7 +221,8 @@ def egRun (body : String) : String :=
       | [_, k] => nat! k
       | _ => 0
     let adds := ops.filterMap fun op => if op.startsWith "A" then some (close (parseTerm (op.drop 1).toString)) else none
-    let names := Orc.dedupL (adds.flatMap freeOcc)
+    let probes := ops.filterMap fun op => if op.startsWith "L" then some (close (parseTerm (op.drop 1).toString)) else none
+    let names := Orc.dedupL ((adds ++ probes).flatMap freeOcc)
     let maxfv := adds.foldl (fun m t => max m (fv t).length) 0
     let nspare := max (max 2 (min 3 maxfv)) extra
     let spares := (List.range nspare).map fun i => 4 * (900 + i)
@@ -217,6 +245,15 @@ def egRun (body : String) : String :=
           | _, _ => (st, outs)
         | _ => (st, outs)
       else if op == "Q" then (st, observe st :: outs)
+      else if op.startsWith "L" then
+        let t := close (parseTerm (op.drop 1).toString)
+        match repIdx st.orc t with
+        | some i =>
+          let u := st.orc.univ[i]!
+          let red := redundantNames st.orc u
+          -- non-redundant free slots of the probe = those of the equal element (class slots)
+          (st, s!"rep:1|slots:{(fv u).length - red.length}" :: outs)
+        | none => (st, "rep:0|slots:?" :: outs)
       else (st, outs)) (st0, [])
     ";".intercalate outs.reverse
   | _ => "bad-case"
